@@ -276,6 +276,7 @@ def r4(cx):
     r = feasible_reach(b, err)
     cx.check(not any(c.bb in r for c in second) and not any(x in r for x, k in exits(b) if k == "ok"), "a failed repair fails the open", "failed-repair-ignored", rep[0].where())
     who_calls(cx, ["wal::recovery::repair_corrupted_wal_segment"], {"Core::replay_wal_with_repair"}, "repair callers", "who:repair")
+    rule_repair_temp_fresh(cx)
 
 
 @rule("C12", "C12.R5", "records appended after open / repair are read back: writer resumes on a validated segment")
